@@ -72,7 +72,7 @@ Outcomes(tr) ==
            [] tr.op = "or" -> {IF x.k = "absent" THEN y ELSE x}
            [] tr.op = "unless" -> {IF y.k = "absent" THEN x ELSE Absent}
            [] tr.op \in CmpOps -> IF x.k = "absent" \/ y.k = "absent" THEN {Absent}
-                                  ELSE IF IsOpen(x) \/ IsOpen(y) THEN {Absent, Zero, One}
+                                  ELSE IF IsOpen(x) \/ IsOpen(y) \/ Undet(x, y) THEN {Absent, Zero, One}
                                   ELSE IF Holds(tr.op, x, y) THEN {One} ELSE {Absent, Zero}
            [] OTHER -> {IF x.k = "absent" \/ y.k = "absent" THEN Absent ELSE Arith(tr.op, x, y)}
          : y \in Outcomes(tr.b)} : x \in Outcomes(tr.a)}
@@ -100,8 +100,10 @@ BadCase == RejectEnv /\ Ev.ev = "Run" /\ ~CaseOk /\ UNCHANGED fam
 EvRun == IsEv("Run") /\ CaseOk /\ Accept /\ grid' = GridOf(Ev) /\ expAt' = [T \in GridOf(Ev) |-> TopAt(T)] /\ matched' = {} /\ lastV' = <<>>
          /\ returned' = FALSE /\ UNCHANGED <<recs, expr, ents, open, flat>>
 
-ValEq(s, ev) == IF s.v.k = "open" THEN TRUE ELSE IF s.sq THEN ev.sq.t = "rat" /\ s.v.k = "rat" /\ ev.sq.n = s.v.n /\ ev.sq.d = s.v.d
-                ELSE ev.val.t = s.v.k /\ (s.v.k = "rat" => ev.val.n = s.v.n /\ ev.val.d = s.v.d)
+\* (the harness projects a float to the simplest rational within its tolerance: exact and rounded values alike)
+ValEq(s, ev) == IF s.v.k = "open" THEN TRUE ELSE IF s.sq THEN ev.sq.t = "rat" /\ IsRat(s.v) /\ ev.sq.n = s.v.n /\ ev.sq.d = s.v.d
+                ELSE IF IsRat(s.v) THEN ev.val.t = "rat" /\ ev.val.n = s.v.n /\ ev.val.d = s.v.d
+                ELSE ev.val.t = s.v.k
 FitsAt(T, ev) == {s \in expAt[T].must \cup expAt[T].may : s.L = PairsOf(ev.labels) /\ ValEq(s, ev) /\ <<T, s.L>> \notin matched}
 IsSort == IF flat.on \/ expr.t # "vecagg" THEN FALSE ELSE expr.op \in {"sort", "sort_desc"}
 \* sort / sort_desc: an instant vector lists its samples in value order
